@@ -128,4 +128,33 @@ example : nextId 7 5 [6, 7, 1] = .ok 2 := by decide
 example : nextId 3 2 [1, 2, 3] = .panic := by decide
 example : nextId maxId 0 [] = .ok 1 := C05_first _ (by decide)
 
+/-! ### the hypothesis is needed: finding F13 in the small (ID space of size 2)
+
+A request times out while it is still queued (the driver is busy), its scrub is handled first, two
+further allocations wrap the 2-element ID space and hand ID 1 out again while the stale request still
+waits: now two outstanding operations carry ID 1, and both requests go out under it.  On the real
+connection this takes 2^31-1 allocations while one request stays queued. -/
+open Conn in
+def f13History : List Ev :=
+  [.alloc .single, .enqueue 0 (some 1), .tick 1, .poll 0, .drvScrub, .alloc .single, .alloc .single]
+
+open Conn in
+example :
+    let s := run (init 2) f13History
+    s.ops.map (·.id) = [1, 2, 1] ∧ s.opQ = [0] ∧ s.ops.map (·.phase) = [.queued, .allocated, .allocated] := by decide
+
+open Conn in
+/-- so the freshness hypothesis fails on this history — it is exactly what `C05_unique` needs -/
+theorem F13_freshness_fails_after_a_wrap : ¬ FreshRun2 (init 2) f13History := by
+  intro hf
+  have h0 : (run (init 2) f13History).ops[0]? = some { id := 1, kind := .single, deadline := some 1, res := some .timeout, phase := .queued } := by decide
+  have h2 : (run (init 2) f13History).ops[2]? = some { id := 1, kind := .single } := by decide
+  exact C05_unique 2 f13History hf 0 2 _ _ h0 h2 (Or.inr (Or.inl (by decide))) (Or.inl rfl) (by decide) rfl
+
+open Conn in
+/-- and both requests leave under the same ID -/
+example :
+    (run (init 2) (f13History ++ [.drvOp true, .enqueue 2 none, .drvOp true])).wire = [(1, .single), (1, .single)] := by
+  decide
+
 end Ldap3V
